@@ -103,8 +103,9 @@ def estimate_directional_distribution(
         raise Exception(f"unsupported spectral estimator method: {method}")
 
     output_shape = list(a1.shape) + [len(direction)]
-    if a1.ndim == 1:
-        input_shape = [1, a1.shape[-1]]
+    if a1.ndim <= 1:
+        # a single spectrum, or (0-d input) a single set of moments.
+        input_shape = [1, a1.size]
     else:
         input_shape = [int(np.prod(a1.shape[0:-1])), a1.shape[-1]]
 
